@@ -30,7 +30,7 @@ const (
 var ModuleName = []string{"flow", "isolation", "hotspot", "circuitbreaker", "system", "outlier"}
 
 // NumVariants per module (0,1 valid; others invalid).
-var NumVariants = []int{14, 5, 10, 10, 5, 6}
+var NumVariants = []int{14, 5, 10, 10, 5, 7}
 
 type RS struct {
 	M   int  `json:"m"`
@@ -362,6 +362,9 @@ func BuildOutlier(r RS) *outlier.Rule {
 		x.Rule.StatIntervalMs = 0
 	case 5:
 		x.Rule = nil
+	case 6:
+		// a strategy for which no breaker can be generated: a rule that could never eject anything
+		x.Rule.Strategy = cb.Strategy(7)
 	}
 	if r.Var <= 1 {
 		switch r.Hid {
